@@ -225,10 +225,19 @@ fn blk_hostile(rng: &mut Rng) -> Vec<u8> {
             // HEADERS whose literal has a broken Huffman string
             let mut s = vec![0u8, 0u8];
             rq::str_encode(4, 0b0010, b"x", false, &mut s);
-            let p: Vec<u8> = match rng.below(3) {
+            let p: Vec<u8> = match rng.below(6) {
                 0 => vec![0xff, 0xff, 0xff, 0xff],
                 1 => vec![0x03, 0x0a],
-                _ => rng.bytes_1upto(5),
+                // EOS (30 one-bits) on a symbol boundary followed by more bits
+                2 => vec![0xff; 5 + rng.usize(4)],
+                3 => vec![0x1f, 0xff, 0xff, 0xff, 0xe3, 0x1f],
+                4 => {
+                    let mut v = rng.bytes_1upto(3);
+                    v.extend([0xff; 5]);
+                    v.extend(rng.bytes_upto(2));
+                    v
+                }
+                _ => rng.bytes_1upto(8),
             };
             rq::int_encode(7, 1, p.len() as u64, &mut s);
             s.extend(p);
